@@ -128,6 +128,9 @@ def run_case(case, ctx):
         ctx.violation("range", "entropy outside [0, log n]", observed=float(v[0]), extra={"dgm": D})
     if all(float(x).is_integer() for p in D for x in p):
         expect(ctx, "value-container", pe(ctx, np.array(D, dtype=int)), [E], "int array", {"dgm": D})
+        if all(x >= 0 for p in D for x in p):
+            for dt, kk in ((np.uint8, 25), (np.int16, 4000), (np.uint64, 3)):
+                expect(ctx, "value-container", pe(ctx, (np.array(D, dtype=np.int64) * kk).astype(dt)), [E], "%s array x %d" % (np.dtype(dt), kk), {"dgm": D})
     # row orders
     perms = list(distinct_permutations(tuple(map(tuple, D)))) if n <= 3 else [tuple(map(tuple, D[::-1])), tuple(map(tuple, D[1:] + D[:1]))]
     for p in perms:
@@ -151,7 +154,11 @@ def run_case(case, ctx):
         infbars = [[births[0], INF], [births[1] + 0.5, INF]][:n_inf]
         Dinf = infbars[:1] + D + infbars[1:]
         Ainf = np.array(Dinf, dtype=float)
-        for keep_inf, val_inf, normalize in itertools.product((True, False), (9.0, None), (False, True)):
+        # substitution values: above every finite death (9.0, 1e4) AND between the infinite bars' births and
+        # the finite deaths (only the infinite deaths are to be replaced, finite coordinates stay)
+        top_inf_birth = max([b for b, _ in infbars] + [min(births[:n])])
+        vals = [9.0, None, top_inf_birth + 0.125, top_inf_birth + 0.75, 1e4] if n_inf else [9.0, None, min(births[:n]) + 0.125]
+        for keep_inf, val_inf, normalize in itertools.product((True, False), vals, (False, True)):
             kw = dict(keep_inf=keep_inf, val_inf=val_inf, normalize=normalize)
             extra = {"dgm": Dinf, "flags": kw}
             if keep_inf and val_inf is None:
@@ -159,7 +166,7 @@ def run_case(case, ctx):
                     must_raise(ctx, "keep-inf-without-value", "keep_inf=True, val_inf=None with infinite bars", lambda: pe(ctx, Ainf, **kw), extra)
                 continue
             if keep_inf:
-                lens = [l for l in ls] + [9.0 - b for b, _ in infbars]
+                lens = [l for l in ls] + [val_inf - b for b, _ in infbars]
                 # keep the row order irrelevant: entropy of the multiset of lengths
             else:
                 lens = list(ls)
@@ -192,9 +199,14 @@ def run_case(case, ctx):
                 expect(ctx, "value-list-equal-shapes", pe(ctx, lst, normalize=normalize), w,
                        "list of %d diagrams with %d bars each, normalize=%r" % (k, n, normalize), {"dgms": [np.asarray(x).tolist() for x in lst]})
     # a bar of non-positive length must raise instead of yielding a number
-    for badbar in ([1.0, 1.0], [2.0, 1.0]):
+    for badbar in ([1.0, 1.0], [2.0, 1.0], [3.0, 1.0]):
         for pos in (0, n):
             Db = D[:pos] + [badbar] + D[pos:]
             must_raise(ctx, "non-positive-bar", "bar %r of non-positive length" % badbar, lambda: pe(ctx, np.array(Db)), {"dgm": Db})
+            if all(float(x).is_integer() and 0 <= x < 120 for p_ in Db for x in p_):
+                # the same barcode in integer / unsigned dtypes (death - birth must not wrap around)
+                for dt in (np.int64, np.int8, np.uint8, np.uint64):
+                    must_raise(ctx, "non-positive-bar", "bar %r of non-positive length, dtype %s" % (badbar, np.dtype(dt)),
+                               lambda: pe(ctx, np.array(Db, dtype=dt)), {"dgm": Db, "dtype": str(np.dtype(dt))})
             must_raise(ctx, "non-positive-bar", "bar %r of non-positive length inside a list" % badbar,
                        lambda: pe(ctx, [np.array(others[1]), np.array(Db)]), {"dgm": Db})
